@@ -51,6 +51,36 @@ class LazyImplies(ast.NodeTransformer):
         return node
 
 
+class TolerantEq(ast.NodeTransformer):
+    """a == b / a != b on floats are evaluated with a relative tolerance of 1e-9 natively: contracts are
+    stated over reals, the real code computes in doubles."""
+
+    def visit_Compare(self, node):
+        self.generic_visit(node)
+        if len(node.ops) == 1 and isinstance(node.ops[0], (ast.Eq, ast.NotEq)):
+            call = ast.Call(func=ast.Name(id="__feq", ctx=ast.Load()), args=[node.left, node.comparators[0]], keywords=[])
+            if isinstance(node.ops[0], ast.NotEq):
+                return ast.UnaryOp(op=ast.Not(), operand=call)
+            return call
+        return node
+
+
+def _feq(a, b):
+    if isinstance(a, float) or isinstance(b, float):
+        try:
+            if isinstance(a, bool) or isinstance(b, bool):
+                return a == b
+            fa, fb = float(a), float(b)
+            if math.isinf(fa) or math.isinf(fb):
+                return fa == fb
+            return math.isclose(fa, fb, rel_tol=1e-9, abs_tol=1e-12)
+        except (TypeError, ValueError):
+            return a == b
+    if isinstance(a, tuple) and isinstance(b, tuple) and len(a) == len(b):
+        return all(_feq(x, y) for x, y in zip(a, b))
+    return a == b
+
+
 class OldRebinder(ast.NodeTransformer):
     """old(e) -> (lambda <params>: e)(<pre-state copies of the params>).  Bound variables of enclosing
     quantifiers stay visible through the closure; only the state names are rebound to the pre-state."""
@@ -73,6 +103,7 @@ def compile_expr(src, defs, clsname, params):
     t = ast.parse(src.strip(), mode="eval").body
     t = Expander(defs, clsname).visit(t)
     t = LazyImplies().visit(t)
+    t = TolerantEq().visit(t)
     t = OldRebinder(params).visit(t)
     e = ast.Expression(t)
     ast.fix_missing_locations(e)
@@ -106,6 +137,7 @@ def recfun_natives(mod, ns):
 
 def base_namespace(mod):
     ns = dict(N.NATIVES)
+    ns["__feq"] = _feq
     try:
         from pyvc import native_term
         ns.update(native_term.ACCESSORS)
